@@ -78,10 +78,17 @@ theorem forall_contains_or {l : List Str} {e : Str} {p : Str → Prop} [Decidabl
 
 theorem forall_contains_or2 {l l' : List Str} {p : Str → Prop} [DecidablePred p]
     (h : (l ++ l').all (fun k => decide (p k)) = true) :
-    ∀ k, (l.contains k || l'.contains k) = true → p k := by
+    ∀ k, l.contains k = true ∨ l'.contains k = true → p k := by
   intro k hk
   apply forall_contains h k
   simpa using hk
+
+theorem forall_contains_or3 {l l' l'' : List Str} {p : Str → Prop} [DecidablePred p]
+    (h : (l ++ l' ++ l'').all (fun k => decide (p k)) = true) :
+    ∀ k, l.contains k = true ∨ l'.contains k = true ∨ l''.contains k = true → p k := by
+  intro k hk
+  apply forall_contains h k
+  simpa [or_assoc] using hk
 
 /-- openers: same kind ⇒ `startNames` only; other kind ⇒ `startBlocks` -/
 theorem cls_open (K K' : Kind) :
@@ -97,7 +104,11 @@ theorem cls_end (K K' : Kind) :
 /-- `elif` / `else` words: recorded by the `if` scanner, ignored by the others -/
 theorem cls_mid (K : Kind) :
     ∀ k, (isElifKw k || isElseKw k) = true → cls K.tbl k = if K = .kIf then .mid else .plain := by
-  cases K <;> exact forall_contains_or2 (by decide)
+  have key : ∀ k, isElifKw k = true ∨ isElseKw k = true →
+      cls K.tbl k = if K = .kIf then .mid else .plain := by
+    cases K <;> exact forall_contains_or2 (by decide)
+  intro k hk
+  exact key k (by simpa using hk)
 
 theorem tables_sub (K : Kind) :
     (K.tbl.startBlocks ++ K.tbl.middleNames ++ K.tbl.endNames ++ K.tbl.endBlocks ++
@@ -579,6 +590,43 @@ mutual
       intro off
       simp [elifAbs, ← midK_append, Nat.add_assoc]
 end
+
+
+/-! ### Part 6: the specification's else-offsets, and the top-level assembly -/
+
+theorem elseOffsets_go_map (p : Nat) : (e : Elifs) → (off : Nat) → (k : Option Str) →
+    (elseOffsets.go off e k).map (p + ·) =
+      elifAbs (p + off) e ++ (match k with
+        | some _ => [p + off + e.flatten.length]
+        | none => [])
+  | .nil, off, k => by
+    cases k <;> simp [elseOffsets.go, elifAbs, Elifs.flatten]
+  | .cons kw cond b rest, off, k => by
+    have ih := elseOffsets_go_map p rest (off + 1 + b.flatten.length) k
+    have e1 : p + (off + 1 + b.flatten.length) = p + off + 1 + b.flatten.length := by omega
+    have e2 : p + off + 1 + b.flatten.length + rest.flatten.length =
+        p + off + (1 + (b.flatten.length + rest.flatten.length)) := by omega
+    rw [e1, e2] at ih
+    simp only [elseOffsets.go, elifAbs, Elifs.flatten, List.map_cons, ih, List.length_cons,
+      List.length_append, List.cons_append]
+    cases k <;> simp <;> omega
+
+/-- a block statement of a kind that allows nesting, scanned from the line after its opener -/
+theorem scan_top {K : Kind} (pre post : List Instruction) (x : ScriptInstr) (ke : Str)
+    (inner : List ScriptInstr) (mids : Nat → List Nat)
+    (hke : K.isEnd ke = true)
+    (hin : ScanP K (pre ++ instrsFrom pre.length (x :: (inner ++ [mkInstr none ke []])) ++ post) inner mids) :
+    findCommands K.tbl (pre ++ instrsFrom pre.length (x :: (inner ++ [mkInstr none ke []])) ++ post)
+      (pre.length + 1) = .ok ⟨mids (pre.length + 1), pre.length + 1 + inner.length⟩ := by
+  have h2 := cls_end K K ke hke
+  simp only [if_true] at h2
+  have hseg := Seg_intro pre post (x :: (inner ++ [mkInstr none ke []]))
+  unfold findCommands
+  generalize pre ++ instrsFrom pre.length (x :: (inner ++ [mkInstr none ke []])) ++ post = is at *
+  refine scan_main x ke inner mids _ pre.length h2 hin hseg ?_
+  have := hseg.1
+  simp only [List.length_cons, List.length_append, List.length_nil] at this
+  omega
 
 
 end Duck
